@@ -25,6 +25,14 @@ variable {K : Type}
 def collectCharge [Add K] [Mul K] [Zero K] (nw : Nat) (img : Nat → Int → Int → K) (qe : Nat → K) (i j : Int) : K :=
   sumRange nw fun l => img l i j * qe l
 
+/-- `collect_charge` on a cube of `ns` slices with `nw` wavelengths / efficiencies, as the code behaves:
+equal counts → the wavelength sum; a single slice (also a 2-D image) with `nw > 1` efficiencies is **broadcast** by `einsum`
+(every efficiency multiplies the one slice: `img · Σ qe` — accepted silently, reported); any other mismatch → `ValueError` (`none`) -/
+def collectChargeChecked [Add K] [Mul K] [Zero K] (ns nw : Nat) (img : Nat → Int → Int → K) (qe : Nat → K) : Option (Int → Int → K) :=
+  if ns = nw then some (collectCharge nw img qe)
+  else if ns = 1 then some (collectCharge nw (fun _ => img 0) qe)
+  else none
+
 /-- the three ways a quantum efficiency can be given. `spectrum s`: `s l` is the value returned by
 `Spectrum.sample(wave, waveunit)` at the `l`-th wavelength (contract of `radiometry.Spectrum.sample`, properties C13/C15) -/
 inductive QE (K : Type) where
